@@ -23,7 +23,7 @@ type Mutation { up(f: Upload!): String upIn(in: In!): String upMany(fs: [Upload!
 const vS19B = `
 scalar Upload
 type Query { pong: String }
-type Mutation { other(f: Upload!): String }
+type Mutation { other(f: Upload!): String label(tag: String): String }
 `
 
 type vRecvFile struct {
@@ -112,7 +112,7 @@ func vMultipartService(url string, req *http.Request) (*http.Response, bool) {
 			vRecv = append(vRecv, vRecvFile{url: url, path: p, filename: fn, content: string(data), opQuery: op.Query, nullAt: ok && v == nil})
 		}
 	}
-	b, _ := json.Marshal(map[string]interface{}{"data": map[string]interface{}{"up": "ok", "upIn": "ok", "upMany": "ok", "other": "ok", "upAlbum": "ok"}})
+	b, _ := json.Marshal(map[string]interface{}{"data": map[string]interface{}{"up": "ok", "upIn": "ok", "upMany": "ok", "other": "ok", "upAlbum": "ok", "label": "ok"}})
 	return &http.Response{StatusCode: 200, Body: &vBody{b}}, true
 }
 
@@ -137,6 +137,8 @@ func vUploadCases() []vUpCase {
 			fmap: map[string][]string{"0": {"variables.fs.0"}, "1": {"variables.fs.1"}, "2": {"variables.fs.2"}, "3": {"variables.fs.3"}, "4": {"variables.fs.4"}, "5": {"variables.fs.5"},
 				"6": {"variables.fs.6"}, "7": {"variables.fs.7"}, "8": {"variables.fs.8"}, "9": {"variables.fs.9"}, "10": {"variables.fs.10"}},
 			owners: map[string][]string{"0": {"svc0"}, "1": {"svc0"}, "2": {"svc0"}, "3": {"svc0"}, "4": {"svc0"}, "5": {"svc0"}, "6": {"svc0"}, "7": {"svc0"}, "8": {"svc0"}, "9": {"svc0"}, "10": {"svc0"}}},
+		// a literal argument whose text equals the name of the upload variable
+		{query: `mutation($f: Upload!) { up(f: $f) label(tag: "f") }`, vars: `{"f": null}`, fmap: map[string][]string{"0": {"variables.f"}}, owners: map[string][]string{"0": {"svc0"}}},
 		// upload variables inside object literals inside a list literal inside an input object literal
 		{query: `mutation($c: Upload, $a: Upload!, $b: Upload!) { upAlbum(input: {title: "t", cover: $c, photos: [{file: $a}, {file: $b}]}) }`, vars: `{"c": null, "a": null, "b": null}`,
 			fmap:   map[string][]string{"0": {"variables.c"}, "1": {"variables.a"}, "2": {"variables.b"}},
